@@ -45,7 +45,8 @@ def calldata_bytes(scn, inp):
     return out
 
 
-def ref_case(scn, inp, fuel=20000):
+def ref_case(scn, inp, fuel=20000, c2names=None):
+    """c2names: {EVM address: halmos' name} for the CREATE2 addresses (engine.PathRecord.c2names); None = the EVM's own"""
     accounts = {}
     for a, acc in scn["accounts"].items():
         st = dict((inp.get("init_scalars") or {}).get(a, {}))
@@ -57,6 +58,8 @@ def ref_case(scn, inp, fuel=20000):
             accounts[a] = {"code": None, "balance": b, "storage": {}}
     msg = {"this": scn["this"], "caller": inp["caller"], "origin": inp["origin"], "value": inp["value"],
            "static": bool(scn.get("static")), "depth": 1, "data": calldata_bytes(scn, inp)}
+    if c2names:
+        return (accounts, msg, None, 0, dict(c2names))
     return (accounts, msg, None, 0)
 
 
@@ -116,6 +119,10 @@ def derive_inputs(scn, paths, rng, n_random=4, n_dict=6):
         if m is not None:
             inputs.append(input_from_model(scn, m, paths))
     base = list(inputs)
+    # argument valuations the scenario insists on (corpus entries whose point is one particular input)
+    for extra in scn.get("extra_args") or []:
+        src = base[0] if base else {"caller": ADDR_POOL[0], "origin": ADDR_POOL[0], "value": 0, "args": {}, "balances": {}}
+        inputs.append(dict(src, args={**{s_[1]: 0 for s_ in scn["calldata"] if s_[0] == "s"}, **src["args"], **{k: int(v) for k, v in extra.items()}}))
     boundary = [0, 1, 2, (1 << 255), (1 << 256) - 1, (1 << 128), 42, 255, 256]
     for _ in range(n_random):
         inp = {"caller": rng.choice(ADDR_POOL), "origin": rng.choice(ADDR_POOL),
@@ -309,7 +316,27 @@ def check_scenario(scn, rng, fuel=20000, n_random=4, with_model=False):
     c01, c02, stats = [], [], {"evaluated": 0, "covered": 0, "unknown_eval": 0, "ref_skipped": 0}
     stuck = [p.kind for p in paths if p.kind.startswith("stuck")]
     per_input_holders, kept_inputs, kept_refs = [], [], []
-    for inp, ref in zip(inputs, refs):
+    skip = [ref["status"] in ("fuel", "unsupported", "model-error") or sum(inp.get("balances", {}).values()) > (1 << 128) for inp, ref in zip(inputs, refs)]
+    # CREATE2: halmos NAMES the created address (engine.create2_names); the address itself is the EVM's, computed here
+    # from the path's own preimage under the input.  Each (path, input) pair whose path holds gets the reference run
+    # under its naming {EVM address: name}; everything but the name is the reference's business.
+    held = {}        # (input number, path number) -> (ok, ev)
+    named = {}       # (input number, naming) -> reference result
+    if any(p.c2 for p in paths):
+        for i, inp in enumerate(inputs):
+            if skip[i]:
+                continue
+            for j, p in enumerate(paths):
+                held[(i, j)] = ok, ev = p.holds(inp)
+                if ok and p.c2:
+                    try:
+                        named.setdefault((i, tuple(sorted(p.c2names(ev).items()))), None)
+                    except Exception:  # noqa: BLE001  (an unknown symbol in a preimage: counted below, when the pair is compared)
+                        pass
+        keys = [k for k in named if k[1]]
+        for k, r in zip(keys, refevm.run_many([ref_case(scn, inputs[k[0]], fuel, dict(k[1])) for k in keys], fuel=fuel) if keys else []):
+            named[k] = r
+    for i, (inp, ref) in enumerate(zip(inputs, refs)):
         if ref["status"] in ("fuel", "unsupported", "model-error"):
             stats["ref_skipped"] += 1
             continue
@@ -320,8 +347,8 @@ def check_scenario(scn, rng, fuel=20000, n_random=4, with_model=False):
         holders = 0
         unknown = 0
         hold_out = []
-        for p in paths:
-            ok, ev = p.holds(inp)
+        for j, p in enumerate(paths):
+            ok, ev = held[(i, j)] if (i, j) in held else p.holds(inp)
             if ok is None:
                 unknown += 1
                 stats.setdefault("unknown_symbols", {})
@@ -336,7 +363,15 @@ def check_scenario(scn, rng, fuel=20000, n_random=4, with_model=False):
             except Exception:  # noqa: BLE001
                 hold_out = None
             try:
-                d = compare_path(scn, p, ev, inp, ref)
+                ref_p = ref
+                if p.c2:
+                    names = tuple(sorted(p.c2names(ev).items()))
+                    ref_p = named.get((i, names)) if names else ref
+                    stats["named_refs"] = stats.get("named_refs", 0) + 1
+                if ref_p is None or ref_p["status"] in ("fuel", "unsupported", "model-error"):
+                    stats["ref_skipped"] += 1
+                    continue
+                d = compare_path(scn, p, ev, inp, ref_p)
             except Exception as e:  # noqa: BLE001
                 d = None
                 stats["unknown_eval"] += 1
